@@ -344,9 +344,28 @@ def check(fx, rep, tier):
     rep.rule('R20.4', 'State::stream() takes the subscription itself')
     rep.rule('R20.5', 'capacity-1 channel (overflow mode where the channel handles lag); set() stores and broadcasts')
     rep.rule('R20.6', 'the tokio and smol implementations satisfy the same obligations')
+    rep.rule('R20.9', 'the broadcast channel shared by all clones of a State is never closed explicitly: a subscription ends only when the state is gone')
     out = {}
     for cn in ('zlink_tokio', 'zlink_smol'):
         out[cn] = check_crate(fx, rep, fx.crate(cn, 'full'), cn)
+    # R20.9 a subscription lasts as long as the state exists: State is Clone and all clones share one channel, so no code of the module may
+    # close the channel explicitly (a `Drop` that closes it ends every subscriber's stream as soon as any clone goes away, and later set()
+    # calls are lost)
+    for cn in ('zlink_tokio', 'zlink_smol'):
+        crate = fx.crate(cn, 'full')
+        n_close = 0
+        for body in crate.bodies:
+            if body.in_test or 'notified' not in body.path:
+                continue
+            for blk, t in body.iter_terms('call'):
+                d = t['callee'].get('def') or ''
+                if t['callee'].get('name') in ('close', 'closed') and ('broadcast' in d or 'Sender' in d or 'Receiver' in d) and t['callee'].get('name') == 'close':
+                    n_close += 1
+                    rep.bad('R20.9', '%s|%s|closes-the-channel' % (cn, body.path), C.where(body, blk),
+                            '`%s` closes the broadcast channel all clones of the State share (%s): the streams of every subscriber end although the state still '
+                            'exists, and values set afterwards are lost' % (body.path, d))
+        rep.ok('R20.9', '%s|channel-never-closed-explicitly' % cn, 'zlink-%s/src/notified.rs' % cn.split('_')[1],
+               'no code of the notified module closes the shared channel (%d close sites)' % n_close, nontrivial=(n_close == 0))
     a, b = out['zlink_tokio'], out['zlink_smol']
     same = a.get('continues') == b.get('continues') and a.get('capacity') == b.get('capacity') and a.get('subscribe') == b.get('subscribe')
     rep.check(same and bool(a.get('continues')), 'R20.6', 'tokio-vs-smol|agreement', 'zlink-tokio/src/notified.rs vs zlink-smol/src/notified.rs',
